@@ -747,6 +747,10 @@ def run(ck: Checker):
     ck.rule('C05-9', 'per-consumption state: the hand-off queue, stop flag and worker thread of Buffer / AsyncBuffer / SyncIter are created when an iteration starts, never by the constructor (leftovers of an aborted pass are not seen by the next) (ORIGIN)', minimum=3)
     check_per_run_state(ck, 'C05-9')
     check_async_driver(ck, 'C05-6')
+    ck.rule('C05-11', 'every executor thread and worker process has exited when the iterator is closed: leaving `with executor:` waits for the calls still running — the pool classes of the package keep the standard exit, or every shutdown they issue waits (an early stop or a failure is an exception thrown into the with body)', minimum=2)
+    from .c08 import check_pool_release_semantics
+
+    check_pool_release_semantics(ck, 'C05-11')
     ck.rule('C05-7', 'no source pull is in flight while a stream generator is suspended: the sync-to-async adapter awaits each `run_in_executor(None, next, source)` in the statement that starts it — a pull started ahead of the consumer\'s request is still running in a helper thread after an early stop (one element is taken and lost, the source generator cannot be closed, the default executor cannot shut down)')
     check_no_prefetch(ck, 'C05-7')
     ck.rule('C05-8', 'the hand-off queue cannot lose a wake-up: the SingleLane obligations (C01-4, C09-6) decided here, because a lost wake-up leaves the producer parked in put() while the finaliser of buffer / fifo_stream waits for it for ever', minimum=3)
